@@ -12,4 +12,8 @@ AllTargets == {"nil", "never", "stopped", "foreign"}
 SomeTargets == {"never", "foreign"}
 NoSenders == {"nil"}
 BothSenders == {"nil", "snd"}
+AllSenders == {"nil", "snd", "req"}
+ReqSenders == {"nil", "req"}
+PlainPayload == {"msg"}
+BothPayloads == {"msg", "nil"}
 ====
